@@ -93,7 +93,7 @@ Definition pt_type (G : env) (t : ty) : list diag := unless (ty_ok G t) DBadType
 
 (* declarations.go:185-187, statements.go forStatement, type_parsing.go:327-329 *)
 Definition art_diag (t : ty) (a : article) : list diag :=
-  match gender M t with Some g => unless (article_eqb g a) DArticle | None => [] end.
+  match gender M t with Some g => unless (article_eqb g a) DArticle | None => [DBadType] end.
 
 (* alias.go: an argument for a Referenz parameter is parsed by assigneable() (expressions.go:782-785) *)
 Definition pt_ref (G : env) (e : expr) : list diag :=
